@@ -172,7 +172,9 @@ class Headers:
 
     async def ensure_checkpointed_size(self):
         max_checkpointed_height = max(self.checkpoints.keys() or [-1])
-        if self.height < max_checkpointed_height:
+        # also when the last checkpointed chunk is cut short: connect() does not complete it (see there), the
+        # placeholder makes it a missing chunk that is fetched and verified as a whole
+        if self.checkpoints and self.height < max_checkpointed_height + 999:
             self._write(max_checkpointed_height, bytes([0] * self.header_size * 1000))
 
     async def ensure_chunk_at(self, height):
@@ -239,6 +241,11 @@ class Headers:
         return hexlify(double_sha256(header)[::-1])
 
     async def connect(self, start: int, headers: bytes) -> int:
+        if self.checkpoints and start < max(self.checkpoints) + 1000:
+            # below the last checkpoint headers are only accepted as whole chunks that hash to their checkpoint
+            # (fetch_chunk); the chain rules alone do not protect them (a fork at minimum difficulty is cheap) and
+            # storing a batch there would cut every verified chunk and connected header above it
+            raise InvalidHeader(start, f"refusing to connect headers at {start}, inside the checkpointed range")
         added = 0
         bail = False
         for height, chunk in self._iterate_chunks(start, headers):
